@@ -17,11 +17,17 @@ HARNESSES = [
       nt=1, heap=1024, defines=['-DH_SYNCDONE'], unwind=5, probes=PR, timeout=300, note='real _dispatch_lane_barrier_sync_invoke_and_complete: the uncontended sync unlock is refused when a waiter set DIRTY meanwhile; all owner-held states, <=2 interferences'),
     S('S_barrier_complete', 'H_BCOMPLETE', ['_dispatch_lane_class_barrier_complete'], 'real _dispatch_lane_class_barrier_complete, target NONE/TARGET: all barrier-held states'),
 ]
-ASSUMPTIONS = ['tier S: one call of one real state-machine function from an arbitrary 64-bit state word (restricted only by the caller contract: what the calling owner holds) and arbitrary width in [1,4094]; at most 2 interfering replacements of the word by other threads',
+PRP = dict(PR); PRP.update({'SZ_rootq': 'sizeof(struct dispatch_queue_global_s)', 'OFF_dgq_pending': 'offsetof(struct dispatch_queue_global_s, dgq_pending)', 'OFF_dgq_thread_pool_size': 'offsetof(struct dispatch_queue_global_s, dgq_thread_pool_size)',
+  'OFF_dpq_mediator_vtable': 'offsetof(struct dispatch_pthread_root_queue_context_s, dpq_thread_mediator.do_vtable)'})
+HARNESSES.append(H('S_root_queue_poke', 'h_pool.c', ['_dispatch_root_queue_poke', '_dispatch_root_queues', '_dispatch_pthread_root_queue_contexts', '__dispatch_tsd'], stubs=['_dispatch_bug', 'libdispatch_tsd_init', '_dispatch_temporary_resource_shortage', 'pthread_create', 'dispatch_semaphore_signal', 'dispatch_once_f'],
+    noglobal=['_dispatch_queue_attrs', '_dispatch_mgr_q'], icall_only=['_dispatch_object_no_invoke'], nt=1, heap=512, unwind=6, probes=PRP, timeout=300,
+    note='real _dispatch_root_queue_poke(_slow) on the default global queue: pool size 0..8, request 1..3, floor 0..2, 0..2 parked workers: pending == threads created, pool accounting, growth when capacity remains'))
+ASSUMPTIONS = ['thread pool lemma: pthread_create and the mediator semaphore are counting stubs; the workqueue monitor (_dispatch_workq_monitor_pools, /proc parsing) is not covered',
+  'tier S: one call of one real state-machine function from an arbitrary 64-bit state word (restricted only by the caller contract: what the calling owner holds) and arbitrary width in [1,4094]; at most 2 interfering replacements of the word by other threads',
                'kevent-workloop role (BASE_WLH) excluded: not compiled on this platform',
                'target-queue push, +2 reference retain/release and QoS-override slow path are counting stubs']
 LEVEL_TEXT = 'Bounded symbolic model checking of the real queue code. Tier S: each state-machine function of the hand-off protocol (_dispatch_queue_drain_try_unlock, _dispatch_queue_wakeup, _dispatch_queue_invoke_finish, _dispatch_lane_class_barrier_complete, the uncontended sync completion) is run once from ALL 2^64 state words permitted by its caller contract, all widths, with up to two arbitrary interfering updates by other threads; the solver decides the no-lost-wakeup / no-double-drive lemmas for every value. Tier H: every operation sequence up to length 3 (thorough: 4) over {async, barrier_async, sync, barrier_sync, async_and_wait, group_async, worker} on serial and concurrent queues and a chained target runs through the full real call tree with pool workers executed inline; exactly-once, no stranded item, sync returns, async does not wait are asserted at every step and at quiescence.'
-LEVEL_NOTE = 'Interleavings are represented by interference on the state word (tier S) and by sequential histories with inline workers (tier H); genuinely concurrent schedules of whole API calls are out of reach of this tool chain (DESIGN 2.4). Weak CAS never fails spuriously in tier H. Thread-pool growth (_dispatch_root_queue_poke, workq monitor) is NOT covered. Root-queue push, allocation, futex and client callout are stubs.'
+LEVEL_NOTE = 'Interleavings are represented by interference on the state word (tier S) and by sequential histories with inline workers (tier H); genuinely concurrent schedules of whole API calls are out of reach of this tool chain (DESIGN 2.4). Weak CAS never fails spuriously in tier H. Thread-pool growth: only the accounting of _dispatch_root_queue_poke(_slow) (tier S lemma S_root_queue_poke); the workqueue monitor and the real thread pool are not covered. Root-queue push, allocation, futex and client callout are stubs.'
 
 # ---------------------------------------------------------------- tier H: bounded histories (case split over operation sequences)
 from hist_spec import HH
